@@ -17,6 +17,9 @@ from ..opalg import OpHooks, make_interp, apply, flags, OPFILE
 FUNFILE = 'odl/solvers/functional/functional.py'
 
 
+_ENDO = [False]
+
+
 class Case(object):
     """One evaluation context: spaces, leaf operators, operands."""
 
@@ -25,7 +28,9 @@ class Case(object):
         self.I = I
         f = field
         self.X = SpaceV('X', f)
-        self.Y = SpaceV('Y', f)
+        # endo run: the leaf operator maps X to X, so that `out` is in the
+        # domain and an aliased evaluation is possible
+        self.Y = self.X if _ENDO[0] else SpaceV('Y', f)
         self.W = SpaceV('W', f)
         self.Z = SpaceV('Z', f)
         self.S = I.opsym('S', self.X, self.Y, self_linear)
@@ -50,7 +55,11 @@ def denote(I, op, x):
 
 def denote_ip(I, op, x, space):
     o = I.fresh_vec(space, 'stale')
-    r = apply(I, op, x, out=o)
+    I.alias_poison = True
+    try:
+        r = apply(I, op, x, out=o)
+    finally:
+        I.alias_poison = False
     if r is not None and r is not o:
         raise Undecided('in-place call returned another object')
     return vs.freeze(o.val), o.label
@@ -193,6 +202,18 @@ def eval_dunder(model, clsname, meth, field, self_lin, osort, other_lin,
                                         'object')
                     res['alias'] = vs.freeze(xa.val)
                     res['alias_show'] = vs.show(xa.val)
+                    # two distinct element objects over one buffer (the
+                    # identity test `out is x` does not see them)
+                    from ..symex import SharedVec
+                    cell = [dict(x.val)]
+                    xs_ = SharedVec(cell, x.space)
+                    os_ = SharedVec(cell, x.space)
+                    rs_ = apply(I, got, xs_, out=os_)
+                    if rs_ is not None and rs_ is not os_:
+                        raise Undecided('in-place call returned another '
+                                        'object')
+                    res['shared'] = vs.freeze(os_.val)
+                    res['shared_show'] = vs.show(os_.val)
             # metadata (C04-R2)
             d, rg, lin = flags(I, got)
             res['meta'] = (d, rg, lin)
@@ -344,6 +365,39 @@ def _one(rep, model, cls, meth, field, self_lin, osort, other_lin, special):
             else:
                 rep.holds('R3a', tag, 'aliased in-place arm equals the '
                           'out-of-place arm')
+    # the same rows for a leaf operator with domain == range: the in-place
+    # arm with a fresh `out` (no aliased call of the leaf may result: an
+    # operator promises nothing for op(v, out=v) unless the caller aliased)
+    # and with `out` aliased to the point
+    _ENDO[0] = True
+    try:
+        leaves = eval_dunder(model, cls, meth, field, self_lin, osort,
+                             other_lin, special)
+    except (Undecided, PyRaise):
+        leaves = []
+    finally:
+        _ENDO[0] = False
+    for res in leaves:
+        if res['exp'] is None or res['outcome'] != 'value' or \
+                res['got'] != res['exp']:
+            continue
+        for key, rule, what in (('ip', 'R3', 'in place on a fresh out'),
+                                ('alias', 'R3a', 'in place with out aliased '
+                                 'to the point'),
+                                ('shared', 'R3s', 'in place with out another '
+                                 'element object over the memory of the '
+                                 'point')):
+            if key not in res:
+                continue
+            if res[key] != res['got']:
+                rep.violation(
+                    rule, cons, '%s, domain = range: evaluated %s the '
+                    'returned object leaves %s, out-of-place gives %s'
+                    % (tag, what, res[key + '_show'], res['got_show']), rel,
+                    line)
+            else:
+                rep.holds(rule, tag + ':endo:' + key, '%s arm equals the '
+                          'out-of-place arm' % what)
         d, rg, lin = res['meta']
         want_lin = expected_meta(meth, osort, self_lin, bool(other_lin))
         probs = []
